@@ -181,3 +181,6 @@ def proved(run):
             f(run)
         except (I.OutOfSubset, KeyError) as e:
             run.obligation(f"C20/{f.__name__}", "out-of-subset", detail=str(e))
+
+    from props import resolves as _res
+    _res.budget_obligation(run, "C20")
